@@ -568,6 +568,7 @@ namespace SplineTrajectory
               integral_num_steps_(other.integral_num_steps_),
               default_time_map_(other.default_time_map_),
               default_spatial_map_(other.default_spatial_map_),
+              last_error_message_(other.last_error_message_),
               spatial_layout_(other.spatial_layout_),
               derivatives_offset_(other.derivatives_offset_),
               total_dimension_(other.total_dimension_),
@@ -599,6 +600,7 @@ namespace SplineTrajectory
                 integral_num_steps_ = other.integral_num_steps_;
                 default_time_map_ = other.default_time_map_;
                 default_spatial_map_ = other.default_spatial_map_;
+                last_error_message_ = other.last_error_message_;
                 spatial_layout_ = other.spatial_layout_;
                 derivatives_offset_ = other.derivatives_offset_;
                 total_dimension_ = other.total_dimension_;
